@@ -55,7 +55,7 @@ CLAIMED = {
           "that the octets handed to the backend are the payloads' concatenation with EOF only after LAST, and one reply per BDAT, are decided by the monitors and the correspondence (and one reply per command by C03's theorem on the model); one known finding (line limiter below bufio)"),
  "C06": C("C06_bound_data (never more than N octets for ANY input), C06_oversize_never_complete, C06_transparent proved for every stream and "
           "schedule; on the server model C06_chunk_over_limit (a BDAT command that would take the message over the limit hands no delivery a single octet, records no "
-          "end of file and leaves no transaction behind) and C06_declared_size_refused (SIZE above the limit is refused by the parameter switch, before the backend); "
+          "end of file and leaves no transaction behind), C06_accepted_chunk_bounded (an accepted chunk hands no delivery more than its declared size) and C06_declared_size_refused (SIZE above the limit is refused by the parameter switch, before the backend); "
           "BDAT accounting across chunks and the 'fits => no 552' / '552 => discarded' rules judged on conversations around the limit.",
           "DESIGN.md 7 C06", "Lean 4 proof (DATA reader, server model) + monitors and differential correspondence (dr, conv probes)",
           "the bytesReceived accounting across several chunks is tied by the correspondence and the monitors, not by a theorem"),
